@@ -165,7 +165,8 @@ def auth_session(rng):
         if rng.random() < 0.3: chunks.append(rng.choice([b'RSET\r\n', b'EHLO again.example.net\r\n', b'HELO again.example.net\r\n', b'NOOP\r\n']))
         if rng.random() < 0.25:
             # a greeting that is refused (blank inside the argument), then what a client may try next
-            chunks.append(rng.choice([b'EHLO client example\r\n', b'HELO client example\r\n', b'EHLO a b\r\n']))
+            chunks.append(rng.choice([b'EHLO client example\r\n', b'HELO client example\r\n', b'EHLO a b\r\n', b'HELO \r\n']))
+            if rng.random() < 0.3: chunks.append(b'STARTTLS\r\n')       # the ESMTP flag, not only the command state, guards STARTTLS
             if rng.random() < 0.7: chunks.append(rng.choice([b'RSET\r\n', b'NOOP\r\n']))
             chunks.append(auth_line(rng, rng.choice(['good', 'good', 'wrongpw'])))
         chunks.append(mail(rng, rng.choice(['ok', 'ok', 'bounce'])))
@@ -203,7 +204,11 @@ def subm_header(rng, hidden=False):
     present = [f for f in SUBM_FIELDS if rng.random() < 0.5]
     rng.shuffle(present)
     for name, val in present:
-        lines.append(_anycase(rng, name) + b':' + rng.choice([b' ', b' ', b'', b'\t']) + val)
+        if rng.random() < 0.15:
+            # folded right behind the colon: the first line is exactly the field name
+            lines.append(_anycase(rng, name) + b':'); lines.append(rng.choice([b' ', b'\t']) + val)
+        else:
+            lines.append(_anycase(rng, name) + b':' + rng.choice([b' ', b' ', b'', b'\t']) + val)
     r = rng.random()
     if r < 0.08 and present:
         name, val = rng.choice(present)                      # duplicate: 550 "more than one"
